@@ -53,7 +53,7 @@ func TestC04_P_ReadSeekModel(t *testing.T) {
 		} else {
 			fc = genFileDAG(t, 0, 200)
 		}
-		how := rapid.SampledFrom([]string{"Reify", "NewUnixFSFile", "unixfs-preload"}).Draw(t, "open")
+		how := rapid.SampledFrom([]string{"Reify", "Reify", "NewUnixFSFile", "unixfs-preload", "Load+NodeReifier", "NewUnixFSFile(reified)"}).Draw(t, "open")
 		node, err := c01Open(fc.St, fc.Root, how)
 		if err != nil {
 			t.Fatalf("open: %v", err)
@@ -106,6 +106,25 @@ func TestC04_P_ReadSeekModel(t *testing.T) {
 				whence := rapid.IntRange(0, 2).Draw(t, "whence")
 				var got int64
 				var err error
+				faulted := func() bool {
+					if !(err != nil && isInjected(err) && fc.St.FailReadAt != 0) {
+						return false
+					}
+					// (some readers have to load blocks to seek; the armed transient fault hit one) - the reader says where it is
+					var p2 int64
+					for attempt := 0; attempt < 3; attempt++ {
+						must(t, "Seek(0,Current) after a faulted seek", func() { p2, err = r.rs.Seek(0, io.SeekCurrent) })
+						if err == nil {
+							break
+						}
+					}
+					if err != nil || p2 < 0 {
+						t.Fatalf("C04 [%s] reader %d: after a seek that met a storage fault, Seek(0,Current) = (%d, %v)", fc.Desc, i, p2, err)
+					}
+					r.pos = p2
+					classes["seek-fault"]++
+					return true
+				}
 				if rapid.IntRange(0, 14).Draw(t, "extreme") == 0 {
 					// offsets at the edges of int64: the exact result (computed without wrap-around) is either representable,
 					// and then it is the answer, or it is negative or beyond MaxInt64, and then no returned position can be right
@@ -113,12 +132,15 @@ func TestC04_P_ReadSeekModel(t *testing.T) {
 					off := rapid.SampledFrom([]int64{math.MaxInt64, math.MaxInt64 - 1, math.MinInt64, math.MinInt64 + 1, math.MaxInt64 - base, math.MaxInt64 - base + 1, -base - 1, math.MaxInt64 / 2, math.MinInt64 / 2}).Draw(t, "edgeoff")
 					exact := new(big.Int).Add(big.NewInt(base), big.NewInt(off))
 					must(t, "Seek", func() { got, err = r.rs.Seek(off, whence) })
+					if faulted() {
+						return
+					}
 					if exact.Sign() < 0 || !exact.IsInt64() {
 						if err == nil {
 							t.Fatalf("C04 [%s] reader %d: Seek(%d, %d) from %d has the exact result %s (not a valid position) but returned (%d, nil)", fc.Desc, i, off, whence, r.pos, exact, got)
 						}
 						var p2 int64
-						must(t, "Seek after failed seek", func() { p2, err = r.rs.Seek(0, io.SeekCurrent) })
+						must(t, "Seek after failed seek", func() { p2, err = tellRetry(fc.St, r.rs) })
 						if err != nil || p2 != r.pos {
 							t.Fatalf("C04 [%s] reader %d: after the rejected Seek(%d, %d) the reader reports position (%d, %v), it was at %d", fc.Desc, i, off, whence, p2, err, r.pos)
 						}
@@ -152,13 +174,16 @@ func TestC04_P_ReadSeekModel(t *testing.T) {
 					delete(armed, i)
 				}
 				must(t, "Seek", func() { got, err = r.rs.Seek(off, whence) })
+				if faulted() {
+					return
+				}
 				if target < 0 {
 					if err == nil {
 						t.Fatalf("C04 [%s] reader %d: Seek(%d, %d) from %d lands at %d < 0 but returned (%d, nil)", fc.Desc, i, off, whence, r.pos, target, got)
 					}
 					// re-synchronise: the reader must still be usable and report a position
 					var p2 int64
-					must(t, "Seek after failed seek", func() { p2, err = r.rs.Seek(0, io.SeekCurrent) })
+					must(t, "Seek after failed seek", func() { p2, err = tellRetry(fc.St, r.rs) })
 					if err != nil || p2 < 0 {
 						t.Fatalf("C04 [%s] reader %d: after a failed seek, Seek(0,Current) = (%d, %v)", fc.Desc, i, p2, err)
 					}
@@ -198,7 +223,7 @@ func TestC04_P_ReadSeekModel(t *testing.T) {
 				var err error
 				must(t, "io.Copy", func() { _, err = io.Copy(&buf, r.rs) })
 				if err != nil && isInjected(err) && fc.St.FailReadAt != 0 {
-					if r.pos+int64(buf.Len()) > n || !bytes.Equal(buf.Bytes(), fc.Data[r.pos:r.pos+int64(buf.Len())]) {
+					if buf.Len() > 0 && (r.pos >= n || r.pos+int64(buf.Len()) > n || !bytes.Equal(buf.Bytes(), fc.Data[r.pos:r.pos+int64(buf.Len())])) {
 						t.Fatalf("C04 [%s] reader %d: io.Copy from %d stopped by a storage fault after delivering %d wrong bytes", fc.Desc, i, r.pos, buf.Len())
 					}
 					r.pos += int64(buf.Len())
@@ -246,7 +271,7 @@ func TestC04_P_ReadSeekModel(t *testing.T) {
 				must(t, "Read after the failed copy", func() { got, rerr = r.rs.Read(buf) })
 				var p int64
 				var serr error
-				must(t, "Seek(0,Current)", func() { p, serr = r.rs.Seek(0, io.SeekCurrent) })
+				must(t, "Seek(0,Current)", func() { p, serr = tellRetry(fc.St, r.rs) })
 				if serr != nil || p < r.pos+int64(dst.buf.Len()) || p > n || p-int64(got) < 0 {
 					t.Fatalf("C04 [%s] reader %d: after a copy from %d that wrote %d bytes and a Read of %d bytes the reader reports position (%d, %v)", fc.Desc, i, r.pos, dst.buf.Len(), got, p, serr)
 				}
@@ -278,6 +303,10 @@ func TestC04_P_ReadSeekModel(t *testing.T) {
 					t.Fatalf("C04 [%s] reader %d: Read(%d) returned n=%d", fc.Desc, i, k, got)
 				}
 				if r.pos >= n {
+					if got == 0 && err != nil && isInjected(err) && fc.St.FailReadAt != 0 {
+						classes["read-fault"]++
+						return
+					}
 					if k > 0 && (got != 0 || err != io.EOF) {
 						t.Fatalf("C04 [%s] reader %d: Read(%d) at %d (len %d) = (%d, %v), want (0, EOF)", fc.Desc, i, k, r.pos, n, got, err)
 					}
@@ -287,7 +316,7 @@ func TestC04_P_ReadSeekModel(t *testing.T) {
 					classes["read-at-end"]++
 				} else {
 					if err != nil && isInjected(err) && fc.St.FailReadAt != 0 {
-						if r.pos+int64(got) > n || !bytes.Equal(buf[:got], fc.Data[r.pos:r.pos+int64(got)]) {
+						if got > 0 && (r.pos+int64(got) > n || !bytes.Equal(buf[:got], fc.Data[r.pos:r.pos+int64(got)])) {
 							t.Fatalf("C04 [%s] reader %d: Read(%d) at %d met a storage fault and delivered wrong bytes %x", fc.Desc, i, k, r.pos, buf[:got])
 						}
 						r.pos += int64(got)
@@ -426,7 +455,6 @@ func TestC04_P_LengthAfterTransientFault(t *testing.T) {
 	})
 }
 
-
 // failingWriter accepts `room` bytes in total and then fails (a short write with an error, as a full pipe gives).
 type failingWriter struct {
 	buf  bytes.Buffer
@@ -442,4 +470,16 @@ func (w *failingWriter) Write(p []byte) (int, error) {
 	w.room = 0
 	w.buf.Write(p[:k])
 	return k, fmt.Errorf("writer is full")
+}
+
+// tellRetry asks the reader for its position; readers that have to load blocks for that may meet an armed transient
+// fault, so an injected error is retried (the fault is one-shot).
+func tellRetry(st *Store, rs io.ReadSeeker) (p int64, err error) {
+	for attempt := 0; attempt < 4; attempt++ {
+		p, err = rs.Seek(0, io.SeekCurrent)
+		if err == nil || !(isInjected(err) && st.FailReadAt != 0) {
+			return
+		}
+	}
+	return
 }
